@@ -22,7 +22,7 @@ RandNode(nm, d, gs, fm) ==
   CASE k <= 3 -> << Leaf(nm, RandLeafExtra(0) \o RandCfg(0) \o RandIf(fm) \o RandSt(fm) \o RandCond(0)) >>
     [] k = 4 -> << LeafList(nm, RandCfg(0) \o (IF Coin(3) THEN <<P("min-elements", "1"), P("max-elements", "3")>> ELSE <<>>)) >>
     [] k \in {5, 6} -> << Cont(nm, (IF Coin(4) THEN <<P("presence", "p")>> ELSE <<>>) \o RandCfg(0) \o RandIf(fm) \o RandSt(fm) \o RandKids(nm, d - 1, gs, fm)) >>
-    [] k = 7 -> << St("list", <<nm>>, <<St("key", <<nm \o "k">>, <<>>), Leaf(nm \o "k", <<>>)>> \o RandCfg(0) \o RandIf(fm)
+    [] k = 7 -> << St("list", <<nm>>, <<St("key", <<nm \o "k">>, <<>>), Leaf(nm \o "k", IF Coin(6) THEN <<P("config", "false")>> ELSE <<>>)>> \o RandCfg(0) \o RandIf(fm)
                                       \o (IF Coin(3) THEN <<St("unique", <<nm \o "u">>, <<>>), Leaf(nm \o "u", <<>>)>> ELSE <<>>) \o RandKids(nm, d - 1, gs, fm)) >>
     [] k = 8 -> << Choice(nm, RandCfg(0) \o (IF Coin(2) THEN <<P("default", nm \o "s")>> ELSE <<>>)
                                 \o <<Case(nm \o "c", RandKids(nm \o "c", d - 1, gs, fm)), Leaf(nm \o "s", RandCfg(0))>>) >>
